@@ -114,6 +114,13 @@ def _r1_output(repo, report, rule):
                 one = [n for n in ast.walk(fn) if isinstance(n, ast.If) and src(n.test).replace(" ", "") in (f"len({tname})==1", f"1==len({tname})") and any(a_ in list(ast.walk(n)) for a_ in applied)]
                 facts_c.update({"is_set": is_set, "over_all_paths": over_all, "applied_when": src(one[0].test) if one else None, "applied_as": src(applied[0].value) if applied else None})
                 ok_c = (is_set and over_all and len(one) == 1 and len(applied) == 1) if (over_all and applied) else None
+                # a name without a known extension counts as its own answer (None): the set is not edited before it is counted
+                edits = [src(x)[:60] for x in ast.walk(fn) if isinstance(x, ast.Call) and isinstance(x.func, ast.Attribute) and chain(x.func.value) == tname and x.func.attr in ("discard", "remove", "difference_update", "intersection_update", "clear")]
+                edits += [src(x)[:60] for x in ast.walk(fn) if isinstance(x, ast.AugAssign) and chain(x.target) == tname]
+                filt = comp is not None and any(any(isinstance(y, ast.Call) and chain(y.func) == "detect_format_from_name" for y in ast.walk(i_)) for i_ in comp.generators[0].ifs)
+                if ok_c and (edits or filt):
+                    ok_c = False
+                    facts_c["set_edited_before_counting"] = edits or ["comprehension filters by the detected format"]
                 if over_all and applied and not is_set:
                     ok_c = False
             if len(coll) == 1 and one:
@@ -128,7 +135,7 @@ def _r1_output(repo, report, rule):
                           why="" if decided else "-o x.fasta -p y.fastq: with one core R1 is written as FASTA and R2 as FASTQ (dnaio looks at each file name), with two cores both are FASTQ (in-memory buffers have no name)")
             report.ob(rule, "OutputFiles.open_record_writer: one format for all paths of a writer", ok_c, facts=facts_c,
                       expected="formats = {detect_format_from_name(p) for p in paths if p is not None}; applied iff exactly one distinct format", loc=repo.loc(fn),
-                      why="" if ok_c is not False else "two output files with the same extension must give one format; with a list (or per-path decision) '-o a.fasta -p b.fasta' is left without an explicit format and the proxied writer falls back to FASTQ")
+                      why="" if ok_c is not False else ("undetected formats are removed from the set before it is counted: with '-o out.fasta -p out.reads' the one recognised extension is imposed on BOTH files, where the file with the unknown extension falls back to the input format" if facts_c.get("set_edited_before_counting") else "") + "two output files with the same extension must give one format; with a list (or per-path decision) '-o a.fasta -p b.fasta' is left without an explicit format and the proxied writer falls back to FASTQ")
             report.ob(rule, "OutputFiles.open_record_writer: format derived from the path string", not undecided, facts={"paths_without_decision": undecided[:3]},
                       expected="the file name(s) are inspected (before any file object exists) on every path that does not force FASTA", loc=repo.loc(fn), fact_key="format-left-to-file-object" if undecided else None,
                       why="" if not undecided else "the FASTA/FASTQ decision is left to dnaio, which looks at the file object's name: compressed streams and in-memory buffers of worker processes have none, so the format depends on compression and on --cores")
@@ -406,6 +413,35 @@ def r4_log_stream(repo, report):
     report.ob("C19.R4", "is_any_output_stdout looks at every option that can name '-'", not missing and none_test, facts={"looked_at": sorted(looked), "missing": missing, "no -o means stdout": none_test}, loc=repo.loc(fn),
               expected="args.output is None, or any of the output options equals '-'",
               why=(f"--{missing[0].replace('_', '-')} - is not recognised as standard output: the log and the report are then written to standard output too, in between the records" if missing else ""))
+    # ... and setup_logging, told so, attaches no handler that writes to standard output, whatever the other settings are
+    fl = repo.func("log", "setup_logging")
+    if fl is None:
+        raise Unrecognised("log.setup_logging not found")
+    lps = params(fl)
+
+    def hk(ex, node, env):
+        if isinstance(node.func, ast.Name) and node.func.id.endswith("Handler") and node.args:
+            return Obj(f"H{node.lineno}<{vkey(ex.ev(node.args[0], env))}>", nonnull=True)
+        return None
+
+    lenv = {lps[0]: Obj("LOGGER", nonnull=True)}
+    for p_ in lps[1:]:
+        lenv[p_] = Obj(p_.upper())
+    lrows = explore(repo, strip_docstring(fl.body), lenv, call_hook=hk, inline=False)
+    lts_key = next((f"truthy:{p_.upper()}" for p_ in lps if "stderr" in p_), None)
+    badl = []
+    seen_true = 0
+    for r in lrows:
+        if lts_key is None or r.valuation.get(lts_key) is False:
+            continue  # (a path that never looks at the flag stands for both of its values)
+        seen_true += 1
+        added = [c_[0][len("LOGGER.addHandler("):-1] for c_ in r.calls if c_[0].startswith("LOGGER.addHandler(")]
+        out = [h for h in added if "<sys.stderr>" not in h]
+        if out:
+            badl.append({"configuration": r.describe()["valuation"], "handlers_not_on_stderr": out})
+    report.ob("C19.R4", "setup_logging(log_to_stderr=True) keeps standard output free of log and report", lts_key is not None and seen_true >= 2 and not badl, facts={"configurations": seen_true, "problems": badl[:2]}, cases=seen_true, loc=repo.loc(fl),
+              expected="with log_to_stderr every attached handler writes to sys.stderr - also for --report=minimal, --quiet and --debug",
+              why=(f"in configuration {badl[0]['configuration']} a handler on {badl[0]['handlers_not_on_stderr'][0]} is attached: report lines end up between the records on standard output" if badl else ""))
     m = cli_main(repo)
     sl = [x for x in calls(m) if chain(x.func) == "setup_logging"]
     from ..repo import call_arguments
